@@ -16,8 +16,9 @@ META = {
                  "generated programs judged against a lexical reference interpreter",
     "level_text": "C07_outer_resolution, C07_module_names_become_global, C07_global_always_module, C07_global_not_propagated, "
                   "C07_decl_after_use_is_error, C07_use_then_declare_rejected hold for every scope chain, name list and "
-                  "machine state; C07_let_elision_refuted and C07_nonlocal_names_have_function_binding_refuted show where the "
-                  "faithful model breaks the property (both replayed on the implementation). The machine is compared with "
+                  "machine state; C07_let_elision (all and only the names an outer let of the same function binds are elided); "
+                  "C07_nonlocal_names_have_function_binding_refuted shows where the faithful model breaks the property "
+                  "(replayed on the implementation). The machine is compared with "
                   "hy/scoping.py on every recorded trace of every run; the dynamic statement (assignments after a "
                   "declaration change exactly the chosen binding) is checked by execution against the reference interpreter.",
     "level_note": "assign_after_decl_hits_binding is not proved in Coq (it needs Python's closure semantics); it is the oracle's "
@@ -37,7 +38,7 @@ TRUSTED = [
 ]
 
 WITNESSES = [
-    ("witness:let-elision (Coq: C07_let_elision_refuted)",
+    ("regression:let-elision (fixed 87cbe18; Coq: C07_let_elision)",
      [("defn", "f1", [], [("let", [("x", ("lit", 1)), ("y", ("lit", 2))],
                            [("let", [("z", ("lit", 3))],
                              [("nonlocal", ["x", "y"]), ("setv", "y", ("lit", 5)), ("ref", "r1", "y")]),
@@ -77,7 +78,7 @@ def run(chk):
     g6 = sp.Gen(chk.rng, "c06")
     for i in range(4000 if thorough else 100):
         labelled.append(("c06:%d" % i, g6.program()))
-    chk.rule = ("programs = the two Coq refutation witnesses rendered as Hy + seeded random programs nesting defn / let / "
+    chk.rule = ("programs = the former let-elision witness (regression) and the Coq class-attribute witness rendered as Hy + seeded random programs nesting defn / let / "
                 "defclass up to depth 4 over the names x y z, with (nonlocal ..)/(global ..) of 1-3 names at function start, "
                 "inside lets, and (8%) after a use; module level and function level; every reference logged. Each is "
                 "(a) compiled with the scope classes instrumented: recorded events -> Gallina machine, outputs compared; "
